@@ -43,6 +43,8 @@ def main():
             return env.compile(c["source"], c["name"], None, raw=True)
         except jinja2.TemplateSyntaxError as e:
             return "SYNTAXERROR:" + str(e)
+        except Exception as e:  # a crash of the compiler is an outcome too
+            return "COMPILER-RAISED:" + type(e).__name__ + ":" + str(e)[:200]
 
     out = {"hashseed": os.environ.get("PYTHONHASHSEED"), "pass1": {}, "pass2": {}, "dumped": {}}
     for cid in job["order1"]:
